@@ -6,6 +6,7 @@
 import CSD.Model.Codes
 import CSD.Model.RePair
 import CSD.Model.RG
+import CSD.Model.RGImage
 import CSD.Model.RPDAC
 import CSD.Model.HashRP
 import CSD.Driver.Util
@@ -266,7 +267,15 @@ def bvLine (impl : String) (par n : Nat) (h : String) : String :=
     else s0plain.map some
   let s0txt := if s0 == s0plain.map some then joinNat s0plain
     else "MODEL-DIFFERS-FROM-PLAIN:" ++ joinNat (s0.map fun o => o.getD 4000000000)
-  s!"BV n={n} acc={acc} r1={joinNat r1} r0={joinNat r0} s1={s1txt} s0={s0txt} cnt={bits.count true}"
+  -- the image `save` writes for the built object (data words, `BuildRank` counters), and it must reload to itself
+  let img := if impl == "rg" && par > 0 then
+      let d := RG.build words n par
+      let bytes := RG.saveImg d
+      match RG.loadImg (bytes ++ [7]) with
+      | some (d', [7]) => if d' == d then hexOfBytes bytes else "MODEL-RELOAD-DIFFERS"
+      | _ => "MODEL-RELOAD-FAILS"
+    else "-"
+  s!"BV n={n} acc={acc} r1={joinNat r1} r0={joinNat r0} s1={s1txt} s0={s0txt} cnt={bits.count true} img={img}"
 
 def wtLine (syms : String) : String :=
   let seq := (splitComma syms).map fun x => x.toNat?.getD 0
